@@ -34,6 +34,8 @@ ClauseOf(name) == CASE name = "update" -> "C05_UpdateKeepsComplete"
 \* the name of the first clause the event breaks, or "none"
 Failing(e) ==
     IF ~e.rows_ok \/ Len(e.pos) # N \/ Len(e.rot) # N THEN "C05_NothingAppearsOrVanishes"
+    \* the complete positions read per tomogram (get_coordinates(t)) are those read for the whole list
+    ELSE IF e.pertomo > PosTol THEN "C05_CompleteIsXPlusShift"
     ELSE IF ~AllLeq(e.pos, PosTol) THEN ClauseOf(e.name)
     ELSE IF ~AllLeq(e.rot, RotTol) THEN ClauseOf(e.name)
     ELSE IF e.name = "update" /\ (~e.integral \/ e.maxshift > 500000 + 1) THEN "C05_UpdateKeepsComplete"
